@@ -12,6 +12,6 @@ func init() {
 			"HTTP timeouts are judged by success / failure against a collector that answers after 80 ms (long timeout expected) or 3 s (10..30 ms timeout expected); gRPC timeouts by the server-side deadline within (T/2, T+100 ms]",
 			"SDK: a non-integer OTEL_SPAN_ATTRIBUTE_* value may give the default or the generic variable's value; an sdk/log batch option below one may give the default or the environment's value; size 0, non-positive durations and sizes whose eager allocation cannot succeed have no asserted meaning (OTEL_BLRP_MAX_QUEUE_SIZE near MaxInt64 is not generated: the constructor would allocate until the machine runs out of memory)",
 			"the sampler is judged by its decisions on 16 spread trace ids and six remote-parent probes (the TracerProvider does not expose its Sampler); for a ratio sampler with an unusable argument both ratio 1.0 and the documented default ParentBased(AlwaysSample) are accepted",
-			"schedule delays: 20 ms / 10 ms must export within 3 s (spans) / 30 s (logs); one hour or the default must not export within 100 ms; the log processor's 1 s default is not told apart from a 10 ms environment value",
+			"schedule delays: 20 ms / 10 ms must export within 3 s (spans) / 10 s (logs); one hour or the default must not export within 100 ms; the log processor's 1 s default is not told apart from a 10 ms environment value",
 		))
 }
